@@ -96,7 +96,7 @@ func (a *acc) one(id string, fam string, mode int, src string, run bool, note st
 		a.sum.Other[v.Detail]++
 	}
 	if v.Clause == "" {
-		if v.Outcome != "fuel" && v.Fuel > 0 {
+		if v.Fuel > 0 {
 			n := float64(len(src) + 1)
 			if r := float64(v.Fuel) / (n * n); r > a.sum.MaxSq {
 				a.sum.MaxSq, a.sum.MaxSqSrc = r, clip(src)
@@ -373,7 +373,7 @@ type reduceShard struct {
 }
 
 func caseSrc(k kase) (string, bool) {
-	if k.Hex != "" || k.Src == "" {
+	if k.Hex != "" {
 		b, err := hex.DecodeString(k.Hex)
 		if err == nil {
 			return string(b), true
@@ -397,6 +397,9 @@ func caseSrc(k kase) (string, bool) {
 				return mutant(string(b), toks, inner, mut, idx), true
 			}
 		}
+	}
+	if k.Src == "" && k.Note == "" {
+		return "", true // the empty input
 	}
 	return "", false
 }
@@ -425,6 +428,27 @@ func reduceWorker(w *pool.W, arg json.RawMessage) {
 		k := mkCase(sh.Case.Fam, sh.Case.Mode, red, sh.Case.Run, "reduced from: "+sh.Case.Note)
 		w.Emit(failRec{Key: sh.Key, Clause: sh.Clause, Case: k, Detail: v.Detail, Size: len(red)})
 	}
+}
+
+// oneWorker runs a single recorded case (replay) inside a worker.
+func oneWorker(w *pool.W, arg json.RawMessage) {
+	defer shardCleanup()
+	var k kase
+	json.Unmarshal(arg, &k)
+	if k.Fam == "d-ladders" {
+		debug.SetMaxStack(1 << 30)
+		ownScratch = true
+	}
+	src, ok := caseSrc(k)
+	if !ok {
+		w.Emit(map[string]any{"error": "cannot rebuild the input from " + k.Note})
+		return
+	}
+	if !w.Item("one") {
+		return
+	}
+	v := check(src, k.Mode, k.Run)
+	w.Emit(map[string]any{"outcome": v.Outcome, "clause": v.Clause, "key": v.Key, "detail": v.Detail, "fuel": v.Fuel, "budget": budget(len(src)), "len": len(src), "src": clip(src)})
 }
 
 func shardCleanup() {
@@ -547,7 +571,7 @@ func caseFromID(id string) kase {
 func main() {
 	if pool.IsWorker() {
 		defer cleanupScratch()
-		pool.Serve(map[string]pool.Handler{"tok": tokWorker, "bytes": byteWorker, "corpus": corpusWorker, "ladder": ladderWorker, "prog": progWorker, "reduce": reduceWorker})
+		pool.Serve(map[string]pool.Handler{"tok": tokWorker, "bytes": byteWorker, "corpus": corpusWorker, "ladder": ladderWorker, "prog": progWorker, "reduce": reduceWorker, "one": oneWorker})
 	}
 	bench()
 	c := ev.New("C01")
@@ -570,6 +594,9 @@ func main() {
 	files := corpusFiles()
 	corpusCases := 0
 	for _, f := range files {
+		if sub := os.Getenv("VERIF_C01_FILE"); sub != "" && !strings.Contains(f, sub) {
+			continue
+		}
 		b, err := os.ReadFile(filepath.Join(repoRoot(), f))
 		if err != nil {
 			continue
@@ -777,7 +804,7 @@ func main() {
 	c.Set("ladder_depths", depths)
 	c.Set("ladders_skipped_over_8MB", skipped)
 	c.Set("base_programs", len(basePrograms))
-	c.Set("fuel_budget", fmt.Sprintf("min(%d*(n+1)^2, %d+%d*(n+1)) ticks for n input bytes", cQuad, linBase, linPer))
+	c.Set("fuel_bound", fmt.Sprintf("%d*(n+1)^2 ticks for n input bytes (first pass %d+%d*(n+1); absolute cap %d, beyond it undecided)", cQuad, linBase, linPer, int64(hardCap)))
 	c.Set("max_fuel_per_sq", fmt.Sprintf("%.1f on %q", maxSq, maxSqSrc))
 	c.Set("max_fuel_per_byte", fmt.Sprintf("%.1f on %q", maxLin, maxLinSrc))
 	c.Set("other_runtime_panics_of_mutants_not_judged_here", other)
@@ -788,8 +815,11 @@ func main() {
 	c.Assume("token boundaries of corpus files come from the check's own crude tokenizer (independent of origami's lexer)")
 	c.Assume("ladder workers run with Go's default 1 GiB goroutine stack limit; a ladder that needs more is a stack overflow of the real CLI too")
 	c.Assume("run-time panics of accepted mutants that are not nil-operand dereferences (e.g. operator type assertions) are counted but left to C03")
-	if maxSq > cQuad/4 || maxLin > linPer/4 {
-		c.HarnessError("fuel bound not generous enough: measured max %.1f per (n+1)^2 (limit %d/4), %.1f per byte (limit %d/4)", maxSq, cQuad, maxLin, linPer)
+	if maxSq > cQuad/4 {
+		c.HarnessError("fuel bound not generous enough: measured max %.1f ticks per (n+1)^2, cQuad=%d must be >= 4x that", maxSq, cQuad)
+	}
+	if outcomes["undecided-over-cap"] > 0 {
+		c.NotExhaustive(fmt.Sprintf("%d input(s) needed more than %d ticks while their bound cQuad*(n+1)^2 is larger: undecided", outcomes["undecided-over-cap"], int64(hardCap)))
 	}
 	if len(watchdog) > 0 {
 		c.HarnessError("inconclusive: %d item(s) killed by the pool's wall-clock watchdog (no verdict): %v", len(watchdog), watchdog)
@@ -820,41 +850,34 @@ func replay(c *ev.Check) {
 		fmt.Println("replay:", err)
 		os.Exit(2)
 	}
-	src, ok := caseSrc(k)
-	if !ok {
-		fmt.Println("replay: cannot rebuild the input from", k.Note)
-		os.Exit(2)
-	}
-	if k.Fam == "d-ladders" || strings.HasPrefix(key, "stack-overflow") || strings.HasPrefix(key, "out-of-memory") || strings.HasPrefix(key, "worker-death") {
-		// may kill the process: run in a worker
-		var sh pool.Shard
-		var name string
-		var depth int
-		if n, _ := fmt.Sscanf(k.Note, "ladder %s depth %d", &name, &depth); n == 2 {
-			sh = pool.Shard{Kind: "ladder", Arg: ladderShard{Name: name, Depth: depth, Mode: k.Mode}}
-			pool.Run([]pool.Shard{sh}, pool.Options{Workers: 1, MemLimit: 16 << 30}, func(si int, rb json.RawMessage) {
-				var r sumRec
-				json.Unmarshal(rb, &r)
-				for _, f := range r.Fails {
-					fmt.Printf("observed %s: %s\n", f.Key, f.Detail)
-					c.Fail(f.Key, f.Clause, f.Size, f.Case, f.Detail)
-				}
-			}, func(d pool.Death) {
-				dk, cl := deathKey(d)
-				fmt.Printf("worker died: %s\n%s\n", dk, firstLines(d.Stderr, 8))
-				c.Fail(dk, cl, 0, k, "replayed")
-			})
-			c.Finish(1, 1, 1, "replay")
+	fmt.Printf("recorded key: %s\n", key)
+	pool.Run([]pool.Shard{{Kind: "one", Arg: k}}, pool.Options{Workers: 1, MemLimit: 16 << 30, HangTimeout: 10 * time.Minute}, func(si int, rb json.RawMessage) {
+		var r map[string]any
+		json.Unmarshal(rb, &r)
+		if e, ok := r["error"]; ok {
+			c.HarnessError("replay: %v", e)
 			return
 		}
-	}
-	v := check(src, k.Mode, k.Run)
-	fmt.Printf("input (%d bytes, mode %d): %q\noutcome=%s fuel=%d budget=%d\n", len(src), k.Mode, clip(src), v.Outcome, v.Fuel, budget(len(src)))
-	if v.Clause != "" {
-		fmt.Printf("violates %s: %s\n  %s\n", v.Clause, v.Key, v.Detail)
-		c.Fail(v.Key, v.Clause, len(src), k, v.Detail)
-	} else {
-		fmt.Println("conforms")
-	}
+		fmt.Printf("input (%v bytes, mode %d): %q\noutcome=%v fuel=%v budget=%v\n", r["len"], k.Mode, r["src"], r["outcome"], r["fuel"], r["budget"])
+		if cl, _ := r["clause"].(string); cl != "" {
+			fmt.Printf("violates %s: %v\n  %v\n", cl, r["key"], r["detail"])
+			c.Fail(fmt.Sprint(r["key"]), cl, 0, k, fmt.Sprint(r["detail"]))
+		} else {
+			fmt.Println("conforms")
+		}
+	}, func(d pool.Death) {
+		if d.Reason == "hang" {
+			c.HarnessError("replay: killed by the wall-clock watchdog, no verdict")
+			return
+		}
+		d.Item = "ladder|" // deep-nesting classification applies to ladder cases only
+		if k.Fam != "d-ladders" {
+			d.Item = "one"
+		}
+		dk, cl := deathKey(d)
+		fmt.Printf("worker died: %s\n%s\n", dk, firstLines(d.Stderr, 8))
+		c.Fail(dk, cl, 0, k, "replayed: "+firstLines(d.Stderr, 4))
+	})
+	sweep()
 	c.Finish(1, 1, 1, "replay")
 }
